@@ -87,7 +87,7 @@ pub fn gen_world_and_ops(r: &mut Rng, crypto: bool, n_obs: usize) -> (Vec<KeySlo
     // operations may refer to issuer indices beyond what setup provides: fold them down
     for op in pool.iter_mut() {
         match op {
-            Op::Issue { issuer, .. } | Op::IssueFromCsr { issuer, .. } | Op::Crl { issuer, .. } => *issuer %= n_issuers,
+            Op::Issue { issuer, .. } | Op::IssueFromCsr { issuer, .. } | Op::Crl { issuer, .. } | Op::IssueViaImport { issuer, .. } => *issuer %= n_issuers,
             _ => {}
         }
         unstore(op);
@@ -337,7 +337,7 @@ pub fn perturb_op(op: &Op, r: &mut Rng) -> Op {
             *store = false;
             perturb_cert(recipe, r);
         }
-        Op::Csr { recipe, .. } | Op::IssueFromCsr { recipe, .. } => perturb_cert(recipe, r),
+        Op::Csr { recipe, .. } | Op::IssueFromCsr { recipe, .. } | Op::IssueViaImport { recipe, .. } => perturb_cert(recipe, r),
         Op::Crl { recipe, .. } => {
             if !recipe.revoked.is_empty() && r.chance(3, 4) {
                 let k = r.usize(recipe.revoked.len());
@@ -391,7 +391,7 @@ pub fn perturb_op(op: &Op, r: &mut Rng) -> Op {
 
 fn issuer_of(op: &Op) -> Option<usize> {
     match op {
-        Op::Issue { issuer, .. } | Op::IssueFromCsr { issuer, .. } | Op::Crl { issuer, .. } => Some(*issuer),
+        Op::Issue { issuer, .. } | Op::IssueFromCsr { issuer, .. } | Op::Crl { issuer, .. } | Op::IssueViaImport { issuer, .. } => Some(*issuer),
         _ => None,
     }
 }
@@ -399,7 +399,7 @@ fn issuer_of(op: &Op) -> Option<usize> {
 fn with_issuer(op: &Op, i: usize) -> Op {
     let mut o = op.clone();
     match &mut o {
-        Op::Issue { issuer, .. } | Op::IssueFromCsr { issuer, .. } | Op::Crl { issuer, .. } => *issuer = i,
+        Op::Issue { issuer, .. } | Op::IssueFromCsr { issuer, .. } | Op::Crl { issuer, .. } | Op::IssueViaImport { issuer, .. } => *issuer = i,
         _ => {}
     }
     o
@@ -506,6 +506,9 @@ pub fn shrink_op(op: &Op) -> Vec<Op> {
             recipe.shrink().into_iter().map(|r| Op::IssueFromCsr { issuer: *issuer, key: *key, recipe: r }).collect()
         }
         Op::Crl { issuer, recipe } => recipe.shrink().into_iter().map(|r| Op::Crl { issuer: *issuer, recipe: r }).collect(),
+        Op::IssueViaImport { issuer, subject, recipe } => {
+            recipe.shrink().into_iter().map(|r| Op::IssueViaImport { issuer: *issuer, subject: *subject, recipe: r }).collect()
+        }
     }
 }
 
